@@ -50,7 +50,7 @@ ASSUMPTIONS = [
     'notes are generated without annobin/stapsdt owners, RELR sections are not displayed by the clone, core-file notes live in '
     'segments the clone does not print: files with those features are skipped for the option concerned',
 ]
-KINDS = {'corpus': (288, 1011, 0), 'system': (22, 64, 1), 'compiled': (30, 71, 1), 'descr': (64, 64, 2), 'dwdescr': (40, 40, 1), 'generated': (260, 2600, 4)}
+KINDS = {'corpus': (288, 1011, 0), 'system': (22, 64, 1), 'compiled': (32, 81, 1), 'descr': (64, 64, 2), 'dwdescr': (40, 40, 1), 'generated': (260, 2600, 4)}
 FLOOR = {'quick': 150, 'thorough': 600}
 CASE_TIMEOUT = 1200
 OPTIONS = ['-e', '-d', '-s', '-n', '-r', '-x.text', '-p.shstrtab', '-V', '--debug-dump=info', '--debug-dump=decodedline',
@@ -316,9 +316,11 @@ def judge(sh, what, path, option, ident, kind):
 # ---------------------------------------------------------------- compiled files
 GCC_CFG = [(v, o, k) for v in (2, 3, 4, 5) for o in ('-O0', '-O2') for k in ('so', 'o')]
 CLANG_TARGETS = [('x86_64-linux-gnu', True), ('i386-linux-gnu', True), ('arm-linux-gnueabi', True), ('aarch64-linux-gnu', True),
-                 ('mips-linux-gnu', False), ('mips64-linux-gnuabi64', False), ('powerpc64le-linux-gnu', False), ('s390x-linux-gnu', False)]
+                 ('mips-linux-gnu', False), ('mips64-linux-gnuabi64', False), ('powerpc64le-linux-gnu', False), ('s390x-linux-gnu', False),
+                 ('armeb-linux-gnueabi', True), ('aarch64_be-linux-gnu', True), ('mipsel-linux-gnu', False), ('mips64el-linux-gnuabi64', False),
+                 ('powerpc64-linux-gnu', False)]
 CLANG_CFG = [(t, regs, v) for t, regs in CLANG_TARGETS for v in (2, 4)] + [(t, regs, 5) for t, regs in CLANG_TARGETS[:4]]
-COMPILED_OPTS = ['-e', '-s', '-r', '-n', '-d', '-V', '--debug-dump=info', '--debug-dump=decodedline', '--debug-dump=frames',
+COMPILED_OPTS = ['-e', '-s', '-r', '-n', '-d', '-V', '-A', '--debug-dump=info', '--debug-dump=decodedline', '--debug-dump=frames',
                  '--debug-dump=frames-interp', '--debug-dump=aranges', '--debug-dump=loc', '--debug-dump=Ranges', '--debug-dump=pubnames']
 
 
@@ -403,6 +405,8 @@ def run_compiled(idx, rng, sh):
             if cfg[0] == 'clang' and ver == 5 and option == '--debug-dump=info':
                 sh.skip('clang DWARF 5 uses the index forms (strx/addrx/loclistx/rnglistx), which have no entry in the clone\'s attribute description map')
                 continue
+            if option == '-A' and not (cfg[0] == 'clang' and cfg[1].startswith('arm')):
+                continue                # build attributes: the clone decodes those of ARM and RISC-V only
             if '-gdwarf64' in cmd and option == '--debug-dump=aranges':
                 sh.skip('address-range sets in the 64-bit DWARF format are not supported by the library (C13 is stated for the 32-bit format)')
                 continue
